@@ -399,11 +399,15 @@ class LuminosityBlock {};
 class ParameterSetDescription { public: void setUnknown() {} };
 class ConfigurationDescriptions { public: void addDefault(ParameterSetDescription&) {} };
 class InputTag {
-  std::string label_;
+  std::string label_;  // what the job asked for, in CMSSW's encoded form label[:instance[:process]]
  public:
   InputTag() {}
   InputTag(const char* l) : label_(l) {}
   InputTag(const std::string& l) : label_(l) {}
+  // the three-part form: the store sees it encoded, so that ("x", "RECO") - instance RECO - and "x::RECO" - process
+  // RECO - stay different requests
+  InputTag(const std::string& l, const std::string& instance, const std::string& process = "")
+      : label_(l + (instance.empty() && process.empty() ? "" : ":" + instance) + (process.empty() ? "" : ":" + process)) {}
   const std::string& label() const { return label_; }
 };
 template <class T> class Handle {
@@ -426,6 +430,9 @@ class Event {
     h.set(simfw::products().get<T>(tag.label()));
     std::fprintf(simfw::sim().out, "DELIVERED %s|%s size=%ld\n", simfw::TypeName<T>::get(), tag.label().c_str(), long(h->size()));
     return true;
+  }
+  template <class T> bool getByLabel(const std::string& label, const std::string& instance, Handle<T>& h) const {
+    return getByLabel(InputTag(label, instance), h);
   }
   template <class T> bool getByToken(const EDGetTokenT<T>& t, Handle<T>& h) const {
     if (t.index < 0 || t.index >= int(simfw::sim().tokens.size())) throw cms::Exception("getByToken with a token that was never initialised by consumes<T>()");
